@@ -8,6 +8,7 @@ RUSTFLAGS="--cfg rngs_verif" cargo build --offline --profile checked --bin monit
 # the same monitor without overflow checks / debug assertions, and with rand_jitter's log feature
 RUSTFLAGS="--cfg rngs_verif" cargo build --offline --profile o3n --bin monitor
 RUSTFLAGS="--cfg rngs_verif" cargo build --offline --profile checked --bin monitor --features jlog --target-dir target-jlog
+RUSTFLAGS="--cfg rngs_verif -C target-cpu=native" cargo build --offline --profile checked --bin monitor --target-dir target-native
 # pre-build the eight C18 configurations (the check rebuilds what changed)
 for prof in o0c o0n o3c o3n; do
   RUSTFLAGS="" cargo build --offline --profile $prof --bin digest --target-dir target-c18-$prof-serde &
